@@ -20,7 +20,7 @@ def strategy(optimizer, tier):
                                              "binary", "discrete", "permutation")),
         config=strategies.config_spec(optimizer, max_cycles=(1, 6 if tier == "quick" else 20),
                                       pop_mults=(1, 1.5, 1.5, 2, 3), perturb=0.4),
-        modes=("serial",) * 8 + ("thread", "process"))
+        modes=("serial",) * 8 + ("thread", "process"), warmup=0.15)
 
 
 def judge(spec, obs):
